@@ -64,10 +64,14 @@ def build_request(rq):
     return f
 
 
-def spec_key(o, rq):
+def spec_key(o, rq, fine=False):
     """The statement's matching key, computed from the description of the request (not from the code):
     method, scheme, path, query parameters not ignored, and unless ignored the host, port, body or the
-    non-ignored form fields, plus the configured headers."""
+    non-ignored form fields, plus the configured headers.
+    fine=False: exactly that (used for "served only if the keys are equal").
+    fine=True: additionally tags form fields with the kind of form (multipart / urlencoded) — the code compares
+    multipart fields as bytes and urlencoded fields as str, so it never matches across kinds; requests whose
+    fine keys are equal are the ones the oracle insists must be treated as matching."""
     key = [rq["m"], rq["s"], rq["path"],
            tuple((k, v or "") for k, v in rq["q"] if k not in o["ignore_params"])]
     if not o["ignore_host"]:
@@ -77,7 +81,7 @@ def spec_key(o, rq):
         key.append(("port", rq["p"]))
     if not o["ignore_content"]:
         if o["ignore_payload_params"] and rq["ct"] in ("form", "multi") and rq["form"]:
-            key.append((rq["ct"], tuple((k, v) for k, v in rq["form"] if k not in o["ignore_payload_params"])))
+            key.append((rq["ct"] if fine else "form", tuple((k, v) for k, v in rq["form"] if k not in o["ignore_payload_params"])))
         else:
             key.append(("body", raw_body(rq)))
     if o["use_headers"]:
@@ -350,8 +354,10 @@ class Check(PropertyCheck):
             # "receives a recorded response only if its matching key ... equals that of the recorded request"
             # (and a request whose key equals is a matching request)
             ka, kb = spec_key(case["o"], case["a"]), spec_key(case["o"], case["b"])
-            if obs["eq"] != (ka == kb):
-                return [f"pair: _hash equal={obs['eq']} but the statement's keys equal={ka == kb}: {ka} / {kb}"]
+            if obs["eq"] and ka != kb:
+                return [f"pair: _hash equal but the statement's keys differ: {ka} / {kb}"]
+            if not obs["eq"] and spec_key(case["o"], case["a"], True) == spec_key(case["o"], case["b"], True):
+                return [f"pair: the statement's keys are equal but _hash differs: {ka} / {kb}"]
             return []
         fails = []
         recs, reqs = case["recs"], case["reqs"]
@@ -378,7 +384,8 @@ class Check(PropertyCheck):
                 res, c, q = parts[0], ev[2], reqs[ev[1]]
                 kq = spec_key(o, q)
                 reuse = c["reuse"] or c["nopop"]
-                cand = [i for i in pending if recs[i]["resp"] and spec_key(o, reqs[recs[i]["req"]]) == kq]
+                kqf = spec_key(o, q, True)
+                cand = [i for i in pending if recs[i]["resp"] and spec_key(o, reqs[recs[i]["req"]], True) == kqf]
                 if res.startswith("served:"):
                     i = int(res[7:].split("!")[0])
                     if "!" in res: fails.append(f"event {n}: response served without is_replay")
